@@ -255,3 +255,92 @@ func VH_C14_stream()           { vStreamDecode(false, false) }
 func VH_C14_stream_reuse()     { vStreamDecode(true, false) }
 func VH_C14_stream_cut()       { vStreamDecode(false, true) }
 func VH_C14_stream_cut_reuse() { vStreamDecode(true, true) }
+
+// Buffer reuse after a MULTI-segment frame whose later segments were looked at: the next frames
+// (one or two segments) come back with their own bytes in every segment, attached to their own
+// message - nothing of the earlier frame shows through.
+func VH_C14_stream_reuse_multi() {
+	m1, b1 := vFrameMsg(2)
+	k2 := 1 + vConcrete(int(vNondetU8()%2), 2)
+	m2, b2 := vFrameMsg(k2)
+	f1, e1 := m1.Marshal()
+	f2, e2 := m2.Marshal()
+	vAssume(e1 == nil && e2 == nil)
+	stream := append(append([]byte{}, f1...), f2...)
+	d := NewDecoder(&vReader{data: stream})
+	if vNondetBool() {
+		d.ReuseBuffer()
+	}
+	vReach("entry")
+	g1, err := d.Decode()
+	vAssert(err == nil && g1.NumSegments() == 2, "C14.reuse.first-frame-decoded")
+	if err != nil {
+		return
+	}
+	for i := 0; i < 2; i++ {
+		s, se := g1.Segment(SegmentID(i)) // look at every segment of the first frame
+		vAssert(se == nil && len(s.data) == len(b1[i]), "C14.reuse.first-frame-length")
+	}
+	g2, err := d.Decode()
+	vAssert(err == nil, "C14.reuse.second-frame-decoded")
+	if err != nil {
+		return
+	}
+	vAssert(int(g2.NumSegments()) == k2, "C14.reuse.second-frame-segments")
+	for i := 0; i < k2; i++ {
+		s2, se2 := g2.Segment(SegmentID(i))
+		vAssert(se2 == nil && len(s2.data) == len(b2[i]), "C14.reuse.second-frame-length")
+		if se2 != nil {
+			continue
+		}
+		vAssert(s2.Message() == g2, "C14.reuse.segment-belongs-to-its-message")
+		if len(b2[i]) > 0 && len(s2.data) == len(b2[i]) {
+			j := vNondetInt()
+			vAssume(j >= 0 && j < len(b2[i]))
+			vAssert(s2.data[j] == b2[i][j], "C14.reuse.second-frame-bytes-no-stale-data")
+		}
+	}
+	_, err = d.Decode()
+	vAssert(err == io.EOF, "C14.reuse.eof-after-last-frame")
+}
+
+// Writing into a message that was read with Unmarshal / Decode never disturbs the bytes of another
+// segment: an object allocated through the read-back message lands outside every existing segment's
+// bytes (the segments of one frame are adjacent in one buffer).
+func VH_C04_unmarshal_then_write() {
+	m1, b1 := vFrameMsg(2)
+	f1, e1 := m1.Marshal()
+	vAssume(e1 == nil)
+	var g *Message
+	var err error
+	if vNondetBool() {
+		g, err = Unmarshal(f1)
+	} else {
+		g, err = NewDecoder(&vReader{data: f1}).Decode()
+	}
+	vAssume(err == nil)
+	s0, err := g.Segment(0)
+	vAssume(err == nil)
+	vReach("read-back")
+	ns, addr, err := alloc(s0, 8)
+	if err != nil {
+		return
+	}
+	vReach("allocated")
+	// fill the new object
+	for j := 0; j < 8; j++ {
+		ns.data[int(addr)+j] = 0xEE
+	}
+	for i := 0; i < 2; i++ {
+		si, err := g.Segment(SegmentID(i))
+		vAssert(err == nil, "C04.readback.segment-still-there")
+		if err != nil {
+			continue
+		}
+		if len(b1[i]) > 0 && len(si.data) >= len(b1[i]) {
+			j := vNondetInt()
+			vAssume(j >= 0 && j < len(b1[i]))
+			vAssert(si.data[j] == b1[i][j], "C04.readback.write-does-not-disturb-other-objects")
+		}
+	}
+}
